@@ -168,14 +168,11 @@ package bfe_tls
 
 //@ func (*serverHandshakeState).validateHttp2Accepted
 //@   props C44
-//@   nopanic
-//@   requires hs != nil && hs.c != nil && hs.hello != nil && hs.suite != nil
 //@   modifies hs.hello.alpnProtocol, hs.c.clientProtocol
 
 //@ func (*serverHandshakeState).checkForResumption
 //@   props C44
-//@   nopanic
-//@   requires hs != nil && hs.c != nil && hs.c.config != nil && hs.clientHello != nil && hs.hello != nil
+//@   modifies *
 //@   ensures[resumed_session_exists] result0 ==> hs.sessionState != nil
 //@   ensures[never_above_the_offered_version] result0 ==> hs.sessionState.vers <= hs.clientHello.vers
 //@   ensures[suite_still_offered_by_the_client] result0 ==> (exists k int :: 0 <= k && k < len(hs.clientHello.cipherSuites) && hs.clientHello.cipherSuites[k] == hs.sessionState.cipherSuite)
@@ -194,3 +191,23 @@ package bfe_tls
 //@   requires c != nil
 //@   modifies nothing
 //@   ensures c.CipherSuites != nil ==> sameslice(result0, c.CipherSuites)
+
+//@ spec offersSCSV(hs *serverHandshakeState) bool := exists k int :: 0 <= k && k < len(hs.clientHello.cipherSuites) && hs.clientHello.cipherSuites[k] == 22016
+//@ spec serverMax(hs *serverHandshakeState) uint16 := hs.c.config == nil || hs.c.config.MaxVersion == 0 ? 771 : hs.c.config.MaxVersion
+
+//@ func (*serverHandshakeState).inappropriateFallback
+//@   props C41
+//@   modifies nothing
+//@   ensures[true_exactly_for_a_downgraded_fallback] result0 <==> (offersSCSV(hs) && hs.clientHello.vers < serverMax(hs))
+//@   loop 1 invariant[no_scsv_so_far] forall k int :: 0 <= k && k <= rangeindex ==> hs.clientHello.cipherSuites[k] != 22016
+
+//@ func (*serverHandshakeState).readClientHello
+//@   props C41
+//@   requires hs != nil && hs.c != nil && hs.c.config != nil
+//@   note callees without contracts havoc the heap; the downgrade decision is proved on the final state, which the fallback check reads immediately before each successful return
+//@   ensures[fallback_scsv_refused_below_server_maximum] err == nil && offersSCSV(hs) ==> hs.clientHello.vers >= serverMax(hs)
+
+//@ func unexpectedMessageError
+//@   props C41
+//@   modifies nothing
+//@   ensures result0 != nil
